@@ -1,7 +1,68 @@
 """C19 — partition, grid, search, list and summary-statistics helpers."""
-import itertools, math, random
+import itertools, math, random, struct, sys
 from fractions import Fraction
 from common import *
+
+DBL_MAX = sys.float_info.max
+
+
+def _step(x, k):
+    """the double k places further along the double grid (k < 0: towards -inf); -0/+0 are one grid point"""
+    o = struct.unpack("<q", struct.pack("<d", abs(x)))[0]
+    o = (o if x >= 0 else -o) + k
+    v = struct.unpack("<d", struct.pack("<q", abs(o)))[0]
+    return v if o >= 0 else -v
+
+
+def _exact_sub(x, y):
+    d = x - y
+    return not math.isinf(d) and Fraction(d) == Fraction(x) - Fraction(y)
+
+
+def _closest_target_ok(l, t):
+    """Generator-side margin rule: the target is admitted when the library's two subtractions are exact in double
+    (then its comparison of the distances is the exact one) or the two distances differ by a relative 2^-40."""
+    lo = [x for x in l if x <= t]
+    hi = [x for x in l if x > t]
+    if not lo or not hi:
+        return True
+    a, b = max(lo), min(hi)
+    if _exact_sub(t, a) and _exact_sub(b, t):
+        return True
+    d1, d2 = Fraction(t) - Fraction(a), Fraction(b) - Fraction(t)
+    return abs(d1 - d2) * 2 ** 40 >= max(d1, d2)
+
+
+# element tokens of the Lists_Equal(double) families: (token, value as the library sees it)
+_ZEROS = [("0x0p+0", 0.0), ("-0x0.0p+0", -0.0), ("z.lit", -0.0), ("z.ceil", -0.0), ("z.round", -0.0), ("z.under", -0.0)]
+_SPECIAL = [("nan", math.nan), ("inf", math.inf), ("-inf", -math.inf), (hx(5e-324), 5e-324), (hx(-5e-324), -5e-324)]
+
+
+def _dl(elems):
+    return "%d %s" % (len(elems), " ".join(t for t, _ in elems)) if elems else "0"
+
+
+def _delem(tok):
+    for t, v in _ZEROS + _SPECIAL:
+        if t == tok:
+            return v
+    return fl(tok)
+
+
+def _parse_dl(ts, pos):
+    n = int(ts[pos])
+    return [_delem(t) for t in ts[pos + 1:pos + 1 + n]], pos + 1 + n
+
+
+def _parse_dll(ts, pos):
+    n = int(ts[pos]); pos += 1; r = []
+    for _ in range(n):
+        row, pos = _parse_dl(ts, pos); r.append(row)
+    return r, pos
+
+
+def _eq_flat(x, y):
+    return len(x) == len(y) and all(p == q for p, q in zip(x, y))     # Python float == is the IEEE ==
 
 RULE = ("requests are enumerated (workload, range, closest-index: exhaustive grids as stated in the property) or drawn "
         "from VERIF_SEED; a case is non-trivial when the model answers ok/err (not undef) and it is counted once per "
@@ -96,6 +157,71 @@ def generate(tier, seed, ctx):
         if l == sorted(l):
             l[0], l[-1] = l[-1] + 1, l[0] - 1
         R.append("c19.closest %s %s" % (lst(l), hx(rng.uniform(-8, 8))))
+    # closest location in the regimes where double arithmetic on the neighbours is delicate (the model is exact over Q,
+    # every double is an exact rational, so its index is the reference; targets obey _closest_target_ok)
+    rng3 = random.Random(seed * 2750159 + 1901)
+    def emit_closest(l, t):
+        if l == sorted(l) and not math.isinf(t) and _closest_target_ok(l, t):
+            R.append("c19.closest %s %s" % (lst(l), hx(t)))
+    # (a) several entries of one sign with magnitude above DBL_MAX/2 (sums of neighbours exceed DBL_MAX), mixed with
+    #     ordinary values, the mirrored negatives, and entries at DBL_MAX itself
+    for k in range(160 if thorough else 60):
+        npos = rng3.randint(2, 5)
+        lo_frac = 0.5 if k % 4 else 0.2           # every fourth list also has large entries below DBL_MAX/2
+        big = sorted(set(rng3.uniform(lo_frac, 1.0) * DBL_MAX for _ in range(npos)))
+        if k % 5 == 0:
+            big.append(DBL_MAX)
+        big = sorted(set(big))
+        shape = k % 3
+        if shape == 0:
+            l = [0.0] + big
+        elif shape == 1:
+            l = sorted([-x for x in big]) + [rng3.choice([-1.0, 0.0, 1e300])] + big[:rng3.randint(1, len(big))]
+        else:
+            l = sorted([-x for x in big]) if k % 2 else list(big)
+        l = sorted(l)
+        for i in range(len(l) - 1):
+            a_, b_ = l[i], l[i + 1]
+            if a_ == b_:
+                continue
+            for fr_ in rng3.sample([0.0625, 0.25, 0.4375, 0.5, 0.5625, 0.75, 0.9375], 3):
+                t = a_ * (1 - fr_) + b_ * fr_          # never overflows: a convex combination
+                emit_closest(l, t)
+        emit_closest(l, l[-1]); emit_closest(l, l[0])
+    # (b) entries 1..8 places apart on the double grid (around 1, at binade boundaries, at random binades, among the
+    #     subnormals, just below DBL_MAX, and the negatives of all these); targets: every grid point in and around the cluster
+    for k in range(120 if thorough else 40):
+        kind = k % 6
+        if kind == 0:
+            base = 1.0
+        elif kind == 1:
+            base = 2.0 ** rng3.randint(-1000, 1000)            # a binade boundary: the grid is twice as fine below it
+            base = _step(base, -rng3.randint(0, 6))
+        elif kind == 2:
+            base = rng3.uniform(1, 2) * 2.0 ** rng3.randint(-1000, 1000)
+        elif kind == 3:
+            base = 5e-324 * rng3.randint(0, 40)                 # subnormals (and zero)
+        elif kind == 4:
+            base = _step(DBL_MAX, -rng3.randint(20, 60))
+        else:
+            base = rng3.uniform(1, 2) * 2.0 ** rng3.randint(-30, 30)
+        offs = [0]
+        for _ in range(rng3.randint(1, 5)):
+            offs.append(offs[-1] + rng3.randint(1, 8))
+        if kind == 4:
+            offs = [o for o in offs if o <= 19]
+        cl = [_step(base, o) for o in offs]
+        l = list(cl)
+        if k % 3 == 0 and base > 0:
+            l = [0.0] + l + ([2 * cl[-1]] if not math.isinf(2 * cl[-1]) else [])
+        neg = k % 2 == 1
+        if neg:
+            l = sorted(-x for x in l)
+            cl = sorted(-x for x in cl)
+        span = range(-2, (offs[-1] if offs else 0) + 3)
+        for j in (span if len(span) <= 30 else rng3.sample(list(span), 30)):
+            t = _step(cl[0], j)
+            emit_closest(l, t)
     # --- list templates -----------------------------------------------------------------------------
     def il(n=None, hi=4):
         n = rng.randint(0, 8) if n is None else n
@@ -125,6 +251,48 @@ def generate(tier, seed, ctx):
             R.append("c19.listseq2 %d %s %d %s" % (len(ls), " ".join(ilst(l) for l in ls), len(rep), " ".join(ilst(l) for l in rep)))
         n = rng.randint(0, 6)
         R.append("c19.transpose2 %s %s" % (ilst(il(n)), ilst(il(n if rng.random() < 0.8 else n + 1))))
+    # Lists_Equal over double (flat and nested): signed zeros of every origin, NaN, infinities, subnormals
+    rng4 = random.Random(seed * 32452843 + 1902)
+    ordinary = [(hx(v), v) for v in (1.0, -1.0, 2.5, -2.5, 0.5, 3.0)]
+    def delem():
+        c = rng4.random()
+        return rng4.choice(_ZEROS) if c < 0.35 else (rng4.choice(_SPECIAL) if c < 0.5 else rng4.choice(ordinary))
+    def rezero(e):          # the same value through another representation: zeros only (== holds, the bits may differ)
+        return rng4.choice(_ZEROS) if e[1] == 0 else e
+    def partner(a):
+        c = rng4.random()
+        if c < 0.35:
+            return [rezero(e) for e in a]
+        if c < 0.5:
+            return list(a)
+        if c < 0.7 and a:
+            b = list(a); b[rng4.randrange(len(b))] = delem(); return b
+        if c < 0.8 and a:
+            return a[:-1]
+        if c < 0.9:
+            return a + [delem()]
+        return [delem() for _ in range(rng4.randint(0, 6))]
+    for k in range(400 if thorough else 150):
+        a = [delem() for _ in range(rng4.randint(0, 7))]
+        R.append("c19.listseqd %s %s" % (_dl(a), _dl(partner(a))))
+        if k % 5 == 0:      # a symmetric grid against its negated mirror image: the centre is +0 on one side, -0 on the other
+            h = rng4.randint(1, 4); st = rng4.choice([0.25, 0.5, 1.0, 3.0])
+            g = [i * st for i in range(-h, h + 1)]
+            m = [-x for x in reversed(g)]
+            R.append("c19.listseqd %s %s" % (lst(g), lst(m)))
+        rows = [[delem() for _ in range(rng4.randint(0, 4))] for _ in range(rng4.randint(0, 4))]
+        c = rng4.random()
+        if c < 0.5:
+            rows2 = [[rezero(e) for e in r] for r in rows]
+        elif c < 0.7:
+            rows2 = [partner(r) for r in rows]
+        elif c < 0.85 and len(rows) >= 2:       # same flattened content, other row boundaries
+            flat = [e for r in rows for e in r]
+            cuts = sorted(rng4.randint(0, len(flat)) for _ in range(len(rows) - 1))
+            rows2 = [flat[p:q] for p, q in zip([0] + cuts, cuts + [len(flat)])]
+        else:
+            rows2 = rows[:-1] if rows and rng4.random() < 0.5 else rows + [[delem()]]
+        R.append("c19.listseqd2 %d %s %d %s" % (len(rows), " ".join(_dl(r) for r in rows), len(rows2), " ".join(_dl(r) for r in rows2)))
     for n in range(0, 6 if thorough else 5):   # Sub_List: exhaustive index grid
         v = [10 + i for i in range(n)]
         for i1 in range(-2, n + 3):
@@ -232,6 +400,8 @@ def compare(rq, impl, model, ctx):
     if op in ("c19.range1", "c19.listseq2", "c19.transpose2"):
         # overloads: compared against the primary operation's model by rewriting the request
         return compare_overload(op, a, impl, ctx)
+    if op in ("c19.listseqd", "c19.listseqd2"):
+        return fs + compare_listseqd(op, a, impl, model, ctx)
     if tag(model) in ("ok", "err"):
         ctx["nontrivial"].add(_key(op, a, model))
     if not both:
@@ -356,6 +526,34 @@ def _key(op, a, model):
 
 def _record(ctx, rq, impl):
     ctx["results"][rq] = impl
+
+
+def compare_listseqd(op, a, impl, model, ctx):
+    """Lists_Equal over double: the oracle is the definition `sizes equal and v1[i] == v2[i] for all i` with the IEEE ==
+    (-0 == +0, NaN != NaN), evaluated on the request; the model (listsEqualD / listsEqualDD) must say the same."""
+    if op == "c19.listseqd":
+        x, p = _parse_dl(a, 0); y, p = _parse_dl(a, p)
+        want = _eq_flat(x, y)
+        flat = x + y
+    else:
+        x, p = _parse_dll(a, 0); y, p = _parse_dll(a, p)
+        want = len(x) == len(y) and all(_eq_flat(r, q) for r, q in zip(x, y))
+        flat = [e for r in x + y for e in r]
+    has_nz = any(e == 0 and math.copysign(1, e) < 0 for e in flat)
+    has_pz = any(e == 0 and math.copysign(1, e) > 0 for e in flat)
+    ctx["nontrivial"].add((op, want, has_nz and has_pz, any(math.isnan(e) for e in flat), min(len(x), 4)))
+    if tag(impl) != "ok":
+        return []          # std_outcome has reported it
+    got = int(toks(impl)[0])
+    out = []
+    if got != int(want):
+        why = "elements that compare == (e.g. -0.0 and +0.0) reported different" if want else "unequal lists (NaN != NaN, or differing elements/sizes) reported equal"
+        out.append(fail("prop", "Lists_Equal(%s): differs from `sizes equal and pointwise ==`: %s" % ("nested double" if op.endswith("2") else "double", why),
+                        "returned %d, definition gives %d" % (got, int(want))))
+    if tag(model) == "ok" and int(toks(model)[0]) != int(want):
+        out.append(fail("corr", "Lists_Equal(double): the model disagrees with the definition evaluated on the request", model))
+    _record(ctx, " ".join([op] + a), impl)
+    return out
 
 
 def compare_overload(op, a, impl, ctx):
